@@ -713,6 +713,18 @@ func (t *FnTrans) modItem(x *Expr, env *Env, f func(comp, sort, ref string)) {
 		f(vc, t.compSort[vc], v.S)
 		f(lc, t.compSort[lc], v.S)
 		return
+	case x.Op == "call" && x.Name == "allmaps":
+		// every map of the type of the given map expression (a callee may replace the map object by a copy)
+		v := env.eval(x.Args[0])
+		mt, ok := env.resolveT(v.T).Underlying().(*types.Map)
+		if !ok {
+			t.fail("modifies allmaps(%s): not a map", x.Args[0])
+		}
+		dc, vc, lc := t.mapComps(mt)
+		f(dc, t.compSort[dc], "")
+		f(vc, t.compSort[vc], "")
+		f(lc, t.compSort[lc], "")
+		return
 	case x.Op == "call" && x.Name == "ghost":
 		name := x.Args[0].Name
 		gp := env.pkg
